@@ -3,6 +3,7 @@ package hist
 import (
 	"context"
 	"fmt"
+	"io"
 	"sort"
 	"strings"
 	"time"
@@ -311,6 +312,36 @@ func (r *Runner) Step(op Op) bool {
 			}
 		}
 
+	case OpStream:
+		// a real StreamingPull session: the initial request carries acks (H), an
+		// optional second request more acks (H2); whatever the stream sends
+		// until it has been quiet for a moment is applied like a pull response
+		// (must-not rules only); then the client half-closes.
+		want := codes.OK
+		if m.LiveSub(op.S) == nil {
+			want = codes.NotFound
+		}
+		acks1, acks2 := r.dels(op.H), r.dels(op.H2)
+		rcv, err := r.streamSession(SubName(op.S), ackIDs(acks1, nil), ackIDs(acks2, nil))
+		te.Target, te.Code = op.S, status.Code(err).String()
+		if status.Code(err) != want {
+			if want == codes.OK {
+				r.report([]Viol{{Prop: "C03", Rule: "stream-status", Detail: fmt.Sprintf("step %d StreamingPull(%s) with %d+%d acks ended with %v", r.step, op.S, len(acks1), len(acks2), err)}})
+			} else {
+				r.expect(op, want, err)
+			}
+			break
+		}
+		if want == codes.OK {
+			m.Ack(op.S, acks1, now)
+			m.Ack(op.S, acks2, now)
+			m.Session = true
+			res, viols := m.Pull(op.S, 1<<30, now, rcv)
+			m.Session = false
+			te.Pull, te.N, te.Info = pullTrace(res.Returned), len(rcv), "nondet"
+			r.report(viols)
+		}
+
 	case OpSeekTime:
 		t := sut.Epoch.Add(time.Duration(op.At))
 		_, err := s.Sub.Seek(ctx, &pubsubpb.SeekRequest{Subscription: SubName(op.S), Target: &pubsubpb.SeekRequest_Time{Time: timestamppb.New(t)}})
@@ -562,4 +593,73 @@ func (r *Runner) Drain(maxRounds int) bool {
 	}
 	r.M.C["drain-bound-hit"]++
 	return true
+}
+
+// streamSession runs one StreamingPull session and returns what was received.
+func (r *Runner) streamSession(sub string, acks1, acks2 []string) ([]*pubsubpb.ReceivedMessage, error) {
+	ctx, cancel := context.WithTimeout(r.Ctx, 10*time.Second)
+	defer cancel()
+	st, err := r.S.Sub.StreamingPull(ctx)
+	if err != nil {
+		return nil, err
+	}
+	if err := st.Send(&pubsubpb.StreamingPullRequest{Subscription: sub, StreamAckDeadlineSeconds: 10, MaxOutstandingMessages: 1000, MaxOutstandingBytes: 1 << 24, AckIds: acks1}); err != nil {
+		return nil, err
+	}
+	if len(acks2) > 0 {
+		if err := st.Send(&pubsubpb.StreamingPullRequest{AckIds: acks2}); err != nil {
+			return nil, err
+		}
+	}
+	type item struct {
+		msgs []*pubsubpb.ReceivedMessage
+		err  error
+	}
+	ch := make(chan item, 64)
+	go func() {
+		for {
+			resp, err := st.Recv()
+			if err != nil {
+				ch <- item{err: err}
+				return
+			}
+			ch <- item{msgs: resp.ReceivedMessages}
+		}
+	}()
+	var got []*pubsubpb.ReceivedMessage
+	quiet := time.NewTimer(40 * time.Millisecond)
+	closed := false
+	for {
+		select {
+		case it := <-ch:
+			if it.err != nil {
+				r.S.WaitStreamsIdle(5 * time.Second)
+				if closed && (it.err == io.EOF || status.Code(it.err) == codes.OK || status.Code(it.err) == codes.Canceled) {
+					return got, nil
+				}
+				if it.err == io.EOF {
+					return got, nil
+				}
+				return got, it.err
+			}
+			got = append(got, it.msgs...)
+			if !quiet.Stop() {
+				select {
+				case <-quiet.C:
+				default:
+				}
+			}
+			quiet.Reset(40 * time.Millisecond)
+		case <-quiet.C:
+			if !closed {
+				closed = true
+				_ = st.CloseSend()
+				quiet.Reset(5 * time.Second)
+			} else {
+				cancel()
+				r.S.WaitStreamsIdle(5 * time.Second)
+				return got, fmt.Errorf("stream did not end after the client half-closed")
+			}
+		}
+	}
 }
